@@ -1,5 +1,5 @@
 /*UNIT
-{"props": ["C06"], "kind": "K1", "tier": "quick", "timeout": 900,
+{"props": ["C06"], "kind": "K1", "tier": "thorough", "timeout": 900,
  "enforce": ["ZSTD_compressBlock_splitBlock_internal"],
  "replace": ["ZSTD_deriveBlockSplits","ZSTD_deriveSeqStoreChunk","ZSTD_countSeqStoreLiteralsBytes","ZSTD_countSeqStoreMatchBytes","ZSTD_compressSeqStore_singleBlock"],
  "loop_contracts": true,
@@ -34,8 +34,10 @@ static size_t ZSTD_compressSeqStore_singleBlock(ZSTD_CCtx* zc, const seqStore_t*
                                                 void* dst, size_t dstCapacity, const void* src, size_t srcSize, U32 lastBlock, U32 isPartition)
 __CPROVER_requires(zc != NULL && seqStore != NULL && dRep != NULL && cRep != NULL)
 __CPROVER_requires(dstCapacity == 0 || __CPROVER_w_ok(dst, dstCapacity))          /* the writer's precondition */
-__CPROVER_assigns(*dRep, *cRep, __CPROVER_object_whole(dst), __CPROVER_object_whole(zc->blockState.prevCBlock), __CPROVER_object_whole(zc->blockState.nextCBlock))
+__CPROVER_assigns(*dRep, *cRep, __CPROVER_object_whole(dst), zc->blockState.prevCBlock, zc->blockState.nextCBlock,
+                  __CPROVER_object_whole(zc->blockState.prevCBlock), __CPROVER_object_whole(zc->blockState.nextCBlock))
 __CPROVER_ensures(ZSTD_isError(__CPROVER_return_value) || __CPROVER_return_value <= dstCapacity)
+__CPROVER_ensures(ZSTD_VERIF_BLOCKSTATE_SWAPPED(zc, __CPROVER_old(zc->blockState.prevCBlock), __CPROVER_old(zc->blockState.nextCBlock)))
 ;
 static size_t ZSTD_compressBlock_splitBlock_internal(ZSTD_CCtx* zc, void* dst, size_t dstCapacity, const void* src, size_t blockSize, U32 lastBlock, U32 nbSeq)
 __CPROVER_requires(__CPROVER_is_fresh(zc, sizeof(ZSTD_CCtx)))
